@@ -4,11 +4,11 @@
    ciphertext of a packet protected per RFC 9001 5.3-5.4 are recovered exactly) and C02_one_rtt_datagram (the session that holds the
    sender's keys adds exactly the data of the packet's STREAM frames to its output); key selection across key updates:
    C02_key_phase_*; packet numbers: C16; key schedule: C15; frames: C17; CRYPTO reassembly: C02_crypto_frames_any_order.
-   Long-header packets (Initial, Handshake, 0-RTT), connection-ID matching and Retry are decided by the reference sender and the
+   Handshake packets: C02_handshake_packet_extracted.  Initial and 0-RTT packets, connection-ID matching and Retry are decided by the reference sender and the
    correspondence of this model with the implementation (tools/props/c02.py). *)
 From Coq Require Import ZArith List Bool.
 From Coq Require Import Permutation.
-Require Import PyLib SuiteTypes Crypto KeySchedule QuicKeys QuicPn QuicDissector QuicFrames QuicTls QuicSession TlsRecords QuicPackets QuicBuildP QuicEpochP QuicCryptoP QuicShortP.
+Require Import PyLib SuiteTypes Crypto KeySchedule QuicKeys QuicPn QuicDissector QuicFrames QuicTls QuicSession TlsRecords QuicPackets QuicBuildP QuicEpochP QuicCryptoP C17RoundP QuicShortP QuicLongPackets QuicLongP.
 Import ListNotations.
 Open Scope Z_scope.
 
@@ -109,3 +109,24 @@ Theorem C02_one_rtt_datagram : forall C, CryptoLaws C -> forall keylog ftable (c
                                                               | _ => [] end) fs.
 Proof. exact one_rtt_datagram. Qed.
 Print Assumptions C02_one_rtt_datagram.
+
+(* A Handshake packet (long header) protected by the sender of Spec/QuicLongPackets.v -- any first byte 1110xxxx, version, connection
+   IDs (destination up to 255 bytes, source up to 63), Length field of any varint width, 1..4 packet-number bytes, payload, AES or
+   ChaCha20 mask -- FOLLOWED BY ANYTHING (further coalesced packets, padding): extract_quic_packet recovers every header field, the
+   packet-number bytes and the ciphertext exactly and hands the rest of the datagram back.  The packet leaves room for the
+   header-protection sample (RFC 9001 5.4.2: packet number and payload together at least 4 bytes). *)
+Theorem C02_handshake_packet_extracted : forall C, CryptoLaws C ->
+  forall (chacha : bool) a (hp key iv : bytes) first (version dcid scid pnb pn8 payload d rest g : bytes) w ts (srv : bool) keys,
+  224 <= first < 240 -> len pnb = Z.land first 3 + 1 -> len version = 4 -> from_be version <> 0 -> bytes_ok version ->
+  len dcid < 256 -> len scid < 64 -> bytes_ok dcid -> bytes_ok scid -> bytes_ok pnb -> bytes_ok rest ->
+  wok w -> len pnb + len payload + 16 < 2 ^ (8 * w - 2) -> 4 <= len pnb + len payload ->
+  (if srv then hp_server_handshake keys else hp_client_handshake keys) = Some hp ->
+  protect_handshake C chacha a hp key iv first version dcid scid pnb pn8 payload w = Ok d ->
+  (forall sample mask, (if chacha then c_chacha_mask C hp sample else c_ecb_enc C hp sample) = Ok mask -> 5 <= len mask /\ bytes_ok mask) ->
+  (forall nonce pt aad ct, c_aead_enc C a 16 key nonce pt aad = Ok ct -> bytes_ok ct) ->
+  let plb := enc_var (len pnb + len payload + 16) w in
+  exists ct, c_aead_enc C a 16 key (quic_nonce iv pn8) payload (([first] ++ version ++ [len dcid] ++ dcid ++ [len scid] ++ scid ++ plb) ++ pnb) = Ok ct /\
+  extract_inner C (d ++ rest) ts srv g keys chacha =
+    Ok ([ mk_long QHandshake srv ts [first] version [len dcid] dcid [len scid] scid [] [] plb pnb ct [] ], rest).
+Proof. exact extract_handshake. Qed.
+Print Assumptions C02_handshake_packet_extracted.
